@@ -246,6 +246,11 @@ def main():
                 problems.append("an input with an invalid lexeme or beyond a resource limit is not rejected by the lexer: " + a[:120])
             if head == "lexerr" and not codes_of(d):
                 problems.append("lexing failed without a diagnostic")
+            mr = re.search(r"render=(FAIL\S*)", a2)
+            if mr:
+                # the diagnostics of a rejected input, as the second-generation command line prints them (byte offsets, every
+                # colour / charset configuration)
+                problems.append("the diagnostics of this input cannot be rendered: " + mr.group(1)[:120])
             if head == "lexerr" and cls in ("token-limit",) and expect == "lexreject" and codes_of(d) != [103]:
                 problems.append("exceeding the token limit is reported as %s, not E103" % d.get("codes"))
         if head == "ok" and i in mof and not problems:
